@@ -214,29 +214,47 @@ def cache_shape(ctx: Ctx) -> RuleResult:
 
 
 def cache_excl(ctx: Ctx) -> RuleResult:
+    """The file written with cache_deps_of excludes the result of EVERY listed node (and only those)."""
     r = RuleResult("CACHE-EXCL")
     ws = _writer(ctx)
     r.require(len(ws) == 1, "pickle.dump site not found")
     f, dump = ws[0]
-    loops = [n for n in iter_own_nodes(f.node) if isinstance(n, ast.For) and "cache_deps_of" in norm_src(n.iter)]
-    if not loops:
+    # the filtered mapping
+    flt = [n for n in iter_own_nodes(f.node) if isinstance(n, ast.DictComp) and n.generators[0].ifs]
+    if not flt:
         r.ob(False)
-        r.violate(f"{f.short}: the cache_deps_of nodes are not excluded from the file", f.loc(),
-                  "restarting from the file would not execute them", None)
+        r.violate(f"{f.short}: the written mapping is not filtered by the excluded ids", f.loc(),
+                  "the results of the cache_deps_of nodes are written to the file: restarting from it does not execute them", None)
         return r
+    cond = flt[0].generators[0].ifs[0]
+    okc = isinstance(cond, ast.Compare) and len(cond.ops) == 1 and isinstance(cond.ops[0], ast.NotIn) \
+        and dotted(cond.left) == dotted(flt[0].generators[0].target.elts[0]) and isinstance(cond.comparators[0], ast.Name)
+    r.ob(okc, {"filter": norm_src(cond)})
+    if not okc:
+        r.violate(f"{f.short}: the written mapping is filtered by '{norm_src(cond)}', not by 'id not in <excluded ids>'", f.loc(flt[0]),
+                  "prefix / substring tests exclude nodes whose id merely begins with an excluded id", norm_src(cond))
+        return r
+    acc = cond.comparators[0].id
+    defs = [n for n in iter_own_nodes(f.node) if isinstance(n, (ast.Assign, ast.AnnAssign)) and dotted(n.targets[0] if isinstance(n, ast.Assign) else n.target) == acc]
+    r.require(len(defs) >= 1, f"definition of {acc} not found")
+    # form 1: the set of the (already resolved) ids
+    direct = [d for d in defs if isinstance(d.value, ast.Call) and dotted(d.value.func) in ("set", "frozenset", "list") and d.value.args
+              and norm_src(d.value.args[0]) == "self.cache_deps_of"]
+    if direct and len(defs) == 1:
+        r.ob(True, {"excluded ids": norm_src(direct[0].value)})
+        return r
+    # form 2: accumulated over a loop on cache_deps_of
+    loops = [n for n in iter_own_nodes(f.node) if isinstance(n, ast.For) and "cache_deps_of" in norm_src(n.iter)]
+    r.require(len(loops) == 1, "computation of the excluded ids not recognised")
     lp = loops[0]
-    # accumulator: a set that must collect the ids of every listed node
-    acc = None
-    for n in iter_own_nodes(f.node):
-        if isinstance(n, (ast.Assign, ast.AnnAssign)) and isinstance(n.value, ast.Call) and dotted(n.value.func) == "set" and not n.value.args \
-                and n.lineno < lp.lineno:
-            acc = dotted(n.targets[0] if isinstance(n, ast.Assign) else n.target)
-    r.require(acc is not None, "accumulator of non-cacheable ids not found")
     good = False
     bad_stmt = None
     for b in own_walk(lp):
         if isinstance(b, ast.Assign) and dotted(b.targets[0]) == acc:
-            if acc in names_in(b.value):
+            v = b.value
+            uni = (isinstance(v, ast.Call) and isinstance(v.func, ast.Attribute) and v.func.attr == "union" and dotted(v.func.value) == acc) or \
+                (isinstance(v, ast.BinOp) and isinstance(v.op, ast.BitOr) and acc in (dotted(v.left), dotted(v.right)))
+            if uni:
                 good = True
             else:
                 bad_stmt = b
@@ -246,28 +264,12 @@ def cache_excl(ctx: Ctx) -> RuleResult:
             good = True
     r.ob(good and bad_stmt is None, {"accumulates over all cache_deps_of": good and bad_stmt is None})
     if bad_stmt is not None:
-        r.violate(f"{f.short}: the set of excluded ids is overwritten on each iteration", f.loc(bad_stmt),
-                  "only the last node of cache_deps_of is excluded: the earlier ones stay in the file and are not executed on restart",
+        r.violate(f"{f.short}: the set of excluded ids is not accumulated by union: {norm_src(bad_stmt)[:70]}", f.loc(bad_stmt),
+                  "only some (or none) of the cache_deps_of nodes are excluded: the others stay in the file and are not executed on restart",
                   norm_src(bad_stmt))
     elif not good:
-        touched = any(isinstance(b, (ast.Assign, ast.AugAssign, ast.Call)) and acc in names_in(b) for b in own_walk(lp) if b is not lp)
-        if not touched:
-            r.violate(f"{f.short}: the ids of the cache_deps_of nodes are never collected", f.loc(lp),
-                      "the set of excluded ids stays empty: nothing is excluded from the file, so restarting from it does not execute "
-                      "the nodes whose dependencies were cached", None)
-        else:
-            raise Undecided("accumulation of the excluded ids not recognised")
-    # the filter uses the accumulator
-    flt = [n for n in iter_own_nodes(f.node) if isinstance(n, ast.DictComp) and n.generators[0].ifs]
-    okf = len(flt) == 1 and norm_src(flt[0].generators[0].ifs[0]).endswith(f"not in {acc}")
-    r.ob(okf, {"filter": norm_src(flt[0].generators[0].ifs[0]) if flt else None})
-    if not okf:
-        r.violate(f"{f.short}: the written mapping is not filtered by the excluded ids", f.loc(flt[0] if flt else lp),
-                  "the results of the cache_deps_of nodes are written to the file: restarting from it does not execute them",
-                  norm_src(flt[0]) if flt else None)
-    # the ids come from alias resolution of each entry
-    res = [b for b in own_walk(lp) if isinstance(b, ast.Call) and isinstance(b.func, ast.Attribute) and b.func.attr in ("alias_to_ids", "get_multiple_nodes_aliases")]
-    r.ob(bool(res) or True, {"ids resolved by": [norm_src(x) for x in res]})
+        r.violate(f"{f.short}: the ids of the cache_deps_of nodes are never collected", f.loc(lp),
+                  "the set of excluded ids stays empty: nothing is excluded from the file", None)
     return r
 
 
